@@ -16,11 +16,14 @@ import (
 type Trace struct {
 	Desc *elfref.Desc `json:"desc"`
 	Evs  []Ev         `json:"evs"`
+	// Lab (C30): not a session but the prompt lab - widths of the value
+	// prompts to provoke, Evs are the answers typed (see lab.go)
+	Lab []int `json:"lab,omitempty"`
 }
 
 func (t *Trace) Len() int { return len(t.Evs) }
 func (t *Trace) Without(from, to int) core.Trace {
-	c := &Trace{Desc: t.Desc}
+	c := &Trace{Desc: t.Desc, Lab: t.Lab}
 	c.Evs = append(append([]Ev(nil), t.Evs[:from]...), t.Evs[to:]...)
 	return c
 }
@@ -125,6 +128,7 @@ type policy struct {
 	// walker: this simulated user walks through the program - entry point,
 	// emulate, then step after step, pointing the pointer registers into the
 	// data of the image (few other commands, no stream faults)
+	lastFind      string // the previous single-word search pattern
 	walker        bool
 	walkStage     int
 	lastBlockMove bool
@@ -277,10 +281,18 @@ func (p *policy) disCommand() string {
 	case 4:
 		pats := []string{"add", "x1", "Block", "ld", "^$", "0x", "x[0-9]+, x0", ".", "zzzz", "Block 1", "s[bhwd] ", "\\|", "[", "j", "beq|bne",
 			".*", "x*", "q?", "(add|sub|ld)", "x1,", "x2,", "x3,", "1:", "0:", "x1,|x2,", "2:", ",", ":", "[0-9A-F][0-9A-F] [0-9A-F][0-9A-F]", "Block [2-9]", "x3[01]?", "lw|ld|sd|sw"}
+		if p.lastFind != "" && r.Chance(1, 4) {
+			// the previous search once more, continued by further words
+			more := pick(r, "x1,", "x2,", "x5,", "x0", "1", "0x", "[0-9]+", ".*", "x[0-9]+,")
+			w := p.lastFind
+			p.lastFind = ""
+			return spaced(r, pick(r, "find", "f", "/"), w, more)
+		}
 		if r.Chance(1, 4) {
 			return spaced(r, pick(r, "find", "f", "/"), pick(r, pats...), pick(r, pats...))
 		}
-		return spaced(r, pick(r, "find", "f", "/"), pick(r, pats...))
+		p.lastFind = pick(r, append(pats, "lui", "addi", "add", "ld", "sd", "lw", "Block")...)
+		return spaced(r, pick(r, "find", "f", "/"), p.lastFind)
 	case 5:
 		from := p.num()
 		to := p.num()
@@ -631,7 +643,54 @@ func (p *policy) choose(o *Obs) Ev {
 
 // Generate runs a live session: the simulated user reacts to what the tool
 // prints; the emitted trace contains only concrete events.
+// genLab draws a prompt-lab trace: prompt widths far beyond a machine word
+// and answers around the interesting magnitudes of each.
+func genLab(r *core.Rand) *Trace {
+	t := &Trace{}
+	n := r.Range(1, 6)
+	for i := 0; i < n; i++ {
+		w := []int{1, 2, 3, 4, 5, 7, 8, 9, 12, 15, 16, 17, 24, 32, 33, 64, 128, 255}[r.Intn(18)]
+		t.Lab = append(t.Lab, w)
+		for tries := r.Range(1, 3); tries > 0; tries-- {
+			var v *big.Int
+			switch r.Intn(8) {
+			case 0: // a multiple of 2^64, either sign
+				v = new(big.Int).Lsh(big.NewInt(int64(r.Range(1, 5))), uint(64*r.Range(1, 3)))
+			case 1: // around 2^(8w)
+				v = new(big.Int).Lsh(big.NewInt(1), uint(8*w))
+				v.Add(v, big.NewInt(int64(r.Range(-2, 2))))
+			case 2: // around 2^(8w-1)
+				v = new(big.Int).Lsh(big.NewInt(1), uint(8*w-1))
+				v.Add(v, big.NewInt(int64(r.Range(-2, 2))))
+			case 3:
+				v = new(big.Int).SetBytes(r.Bytes(r.Range(1, w+9)))
+			case 4:
+				v = big.NewInt(int64(r.Intn(3)))
+			case 5: // all ones of some width
+				v = new(big.Int).Lsh(big.NewInt(1), uint(8*r.Range(1, w+2)))
+				v.Sub(v, big.NewInt(1))
+			default:
+				v = new(big.Int).SetBytes(r.Bytes(r.Range(1, w)))
+			}
+			if r.Chance(1, 2) {
+				v.Neg(v)
+			}
+			s := spellNumber(r, v, true)
+			if r.Chance(1, 6) {
+				s = pick(r, "", "1_0", "_", "0x", "abc", "0b2", "--1", "0x_1", "12a", "+5", "0o17", "09", "-", "-0x", "1e3")
+			}
+			if len(s) < 3000 {
+				t.Evs = append(t.Evs, Ev{K: "line", S: s})
+			}
+		}
+	}
+	return t
+}
+
 func (e *Engine) Generate(r *core.Rand, prop string, tier string) core.Trace {
+	if prop == "C30" && r.Chance(1, 6) {
+		return genLab(r)
+	}
 	t := &Trace{Desc: genProgram(r)}
 	curTrace = t
 	ld, err := loadProgram(t.Desc)
